@@ -198,4 +198,68 @@ theorem Rel.create (h : Rel s d) {q : Path} {n : Bytes} (hq : q = [] ∨ q ∈ d
           · exact Or.inl ⟨r, hr, hkr, hvr⟩
         · exact Or.inr he
 
+/-- `k0` is the index key or a data key of a bucket at or below `p` -/
+def UnderKey (p : Path) (k0 : Bytes) : Prop :=
+  ∃ r, p <+: r ∧ NoSep r ∧ (k0 = idxKey r ∨ ∃ k, k0 = dataKey r k)
+
+/-- deletion of an existing bucket with everything below it -/
+theorem Rel.delb (h : Rel s d) {p : Path} (hp : p ∈ d.buckets) (hp2 : p.length ≥ 2)
+    (hs' : SMap.Sorted s')
+    (hgone : ∀ k0, UnderKey p k0 → s'.get k0 = none)
+    (hkeep : ∀ k0, ¬ UnderKey p k0 → s'.get k0 = s.get k0) :
+    Rel s' { buckets := d.buckets.filter fun q => !p.isPrefixOf q,
+             data := d.data.filter fun e => !p.isPrefixOf e.1.1 } where
+  sorted := hs'
+  bNodup := List.Pairwise.filter _ h.bNodup
+  bValid := by intro q hq; exact h.bValid q (List.mem_filter.mp hq).1
+  bClosed := by
+    intro q n hq hm
+    have hm' := List.mem_filter.mp hm
+    refine List.mem_filter.mpr ⟨h.bClosed q n hq hm'.1, ?_⟩
+    simp only [Bool.not_eq_true', Bool.eq_false_iff, ne_eq, List.isPrefixOf_iff_prefix] at hm' ⊢
+    intro hpre
+    exact hm'.2 (hpre.trans (List.prefix_append q [n]))
+  dNodup := nodup_map_fst_filter _ h.dNodup
+  dIn := by
+    intro e he
+    have he' := List.mem_filter.mp he
+    exact ⟨List.mem_filter.mpr ⟨(h.dIn e he'.1).1, he'.2⟩, (h.dIn e he'.1).2⟩
+  mem := by
+    intro k0 v0
+    by_cases hu : UnderKey p k0
+    · rw [hgone k0 hu]
+      simp only [reduceCtorEq, false_iff, not_or, not_exists, not_and]
+      obtain ⟨r, hpr, hnr, hk⟩ := hu
+      refine ⟨?_, ?_⟩
+      · intro q hq hkq
+        have hq' := List.mem_filter.mp hq
+        simp only [Bool.not_eq_true', Bool.eq_false_iff, ne_eq, List.isPrefixOf_iff_prefix] at hq'
+        rcases hk with hk | ⟨k, hk⟩
+        · rw [hk] at hkq
+          have := idxKey_injective hnr (h.noSep hq'.1) hkq
+          subst this; exact absurd hpr hq'.2
+        · rw [hk] at hkq; exact absurd hkq (dataKey_ne_indexKey _ _ _)
+      · intro e he hke
+        have he' := List.mem_filter.mp he
+        simp only [Bool.not_eq_true', Bool.eq_false_iff, ne_eq, List.isPrefixOf_iff_prefix] at he'
+        rcases hk with hk | ⟨k, hk⟩
+        · rw [hk] at hke; exact absurd hke.symm (dataKey_ne_indexKey _ _ _)
+        · rw [hk] at hke
+          have := (dataKey_injective hnr (h.noSep (h.dIn e he'.1).1) hke).1
+          rw [← this] at he'; exact absurd hpr he'.2
+    · rw [hkeep k0 hu, h.mem]
+      constructor
+      · rintro (⟨q, hq, hkq, hvq⟩ | ⟨e, he, hke, hve⟩)
+        · refine Or.inl ⟨q, List.mem_filter.mpr ⟨hq, ?_⟩, hkq, hvq⟩
+          simp only [Bool.not_eq_true', Bool.eq_false_iff, ne_eq, List.isPrefixOf_iff_prefix]
+          intro hpre
+          exact hu ⟨q, hpre, h.noSep hq, Or.inl hkq⟩
+        · refine Or.inr ⟨e, List.mem_filter.mpr ⟨he, ?_⟩, hke, hve⟩
+          simp only [Bool.not_eq_true', Bool.eq_false_iff, ne_eq, List.isPrefixOf_iff_prefix]
+          intro hpre
+          exact hu ⟨e.1.1, hpre, h.noSep (h.dIn e he).1, Or.inr ⟨e.1.2, hke⟩⟩
+      · rintro (⟨q, hq, hkq, hvq⟩ | ⟨e, he, hke, hve⟩)
+        · exact Or.inl ⟨q, (List.mem_filter.mp hq).1, hkq, hvq⟩
+        · exact Or.inr ⟨e, (List.mem_filter.mp he).1, hke, hve⟩
+
 end MW.Model.KV
